@@ -113,6 +113,11 @@ def run(ctx):
             sat = []
             for k in rng.sample(ELS_SAT, 3):
                 sat.append(["d", "[%s]" % k + "[Branch1][C][F]" * 7 + "[=O]", {}])
+            for _ in range(3):
+                # any element x any charge, saturated in the middle of a chain: listed kinds, kinds whose neutral form
+                # is listed but whose charge is not, kinds covered by '?' only
+                k = tablegen.key_of(rng.choice(tablegen.ELS), rng.choice([0, 1, -1, 2, -2, 2, -2, 3, -3]))
+                sat.append(["d", "[C][%s]" % k + rng.choice(["[C]", "[=C]", "[Branch1][C][F]"]) * rng.choice([2, 4, 7]) + "[=O]", {}])
             probes = sat + [["d", rng.choice(pool_d), {"attribute": rng.random() < 0.2}] for _ in range(6)] + \
                      [["e", rng.choice(pool_e), {"strict": False, "attribute": rng.random() < 0.2}] for _ in range(5)]
             res = [call(sf, k, x, fl) for k, x, fl in probes]
